@@ -25,7 +25,7 @@ static bool in_range(const std::string& k, const std::string& l, scan_endpoint l
 }
 int main(int argc, char** argv) {
     for (int i = 1; i < argc; i++) { std::string a = argv[i]; auto p = a.find('='); if (p != std::string::npos) A[a.substr(0, p)] = a.substr(p + 1); }
-    vh::install_fault_handlers(argi("alarm", 300));
+    vh::install_fault_handlers(argi("alarm", 40));
     rng.seed(argi("seed", 1));
     long nops = argi("nops", 300), pool = argi("pool", 60), maxlen = argi("maxlen", 4), alpha = argi("alpha", 3);
     long pput = argi("pput", 40), prem = argi("prem", 20), pget = argi("pget", 10), pscan = argi("pscan", 15), piscan = argi("piscan", 10), pmem = argi("pmem", 5);
@@ -91,8 +91,22 @@ int main(int argc, char** argv) {
         if (rc == status::OK) present[k] = true;
         have_read = false;
     };
+    long psweep = argi("psweep", 0); std::vector<std::string> sweep;   // sorted runs of removes that empty whole borders
     for (long opno = 1; opno <= nops; opno++) {
         long x = rng() % 100; long acc = 0;
+        if (sweep.empty() && psweep > 0 && (long)(rng() % 1000) < psweep) {
+            std::vector<std::string> pk; for (auto& kv : present) if (kv.second) pk.push_back(kv.first);
+            if (pk.size() > 4) { std::size_t len = 6 + rng() % 40, from = rng() % pk.size(); int how = rng() % 3;
+                if (how == 0) from = 0; if (how == 1) from = pk.size() > len ? pk.size() - len : 0;
+                for (std::size_t q = from; q < pk.size() && q < from + len; q++) sweep.push_back(pk[q]);
+                if (rng() % 2) std::reverse(sweep.begin(), sweep.end()); }
+        }
+        if (!sweep.empty()) {
+            std::string k = sweep.back(); sweep.pop_back(); status rc = remove(tok, st, k);
+            std::string o = "{\"op\":\"rem\",\"k\":" + vh::jbytes(k) + ",\"st\":\"" + vh::stname(rc) + "\"";
+            if (dumpall || (dumpevery > 0 && opno % dumpevery == 0)) { vh::Canon c(ti); o += ",\"dump\":" + vh::dump_json(c, valjson); }
+            o += "}"; puts(o.c_str()); if (rc == status::OK) present[k] = false; have_read = false; continue;
+        }
         // phantom probe right after a read that collected node versions
         if (have_read && (long)(rng() % 100) < pprobe) {
             std::vector<std::string> cand; for (auto& k : keys) if (!present[k] && in_range(k, rd_l, rd_le, rd_r, rd_re)) cand.push_back(k);
